@@ -701,6 +701,10 @@ class DataLinkConnection(TransmissionControlObject):
                     send_pdu.nr = self.recv_ack
                     self.send_ready.notify()
 
+                elif send_pdu.name == "I":
+                    # accepted by send() before the connection was closed
+                    send_pdu.nr = self.recv_ack
+
                 if send_pdu.name == "DM" and self.state.CLOSE_WAIT:
                     self.recv_queue.append(pdu.Disconnect(
                         dsap=self.peer, ssap=self.addr))
